@@ -7,10 +7,12 @@ def main():
     props_all = json.load(open(os.path.join(ROOT, 'MANIFEST.json')))
     claimed = [c['property_id'] for c in props_all['checks']]
     out = {}
-    for name in names:
+    par = int(os.environ.get('SEEDED_PAR', '3'))
+    from concurrent.futures import ThreadPoolExecutor
+    def one(name):
         d = os.path.join(ROOT, 'seeded', name)
         if not os.path.isdir(d) or not os.path.exists(d + '/patch.diff'):
-            continue
+            return
         prop = name.split('-')[0]
         extra = os.environ.get('SEEDED_PROPS')
         props = extra.split(',') if extra else [prop]
@@ -27,13 +29,16 @@ def main():
                     res[p] = 'not-claimed'
                     continue
                 env = dict(os.environ, VERIF_REPO=scratch + '/repo', VERIF_EVIDENCE_DIR=scratch + '/evidence', VERIF_REPLAY_DIR=scratch + '/replays')
-                pr = subprocess.run([ROOT + '/check', p, '--tier', 'quick', '--repo', scratch + '/repo'], capture_output=True, text=True, env=env)
+                pr = subprocess.run([ROOT + '/check', p, '--tier', 'quick', '--jobs', os.environ.get('SEEDED_JOBS', '6'), '--repo', scratch + '/repo'], capture_output=True, text=True, env=env)
                 viol = [l for l in pr.stdout.split('\n') if l.startswith('VIOLATION')]
                 res[p] = {'rc': pr.returncode, 'violations': viol[:4], 'tail': pr.stdout[-300:] if pr.returncode not in (0, 1) else ''}
             out[name] = res
             print(name, json.dumps(res)[:400], flush=True)
         finally:
             shutil.rmtree(scratch, ignore_errors=True)
+    with ThreadPoolExecutor(par) as ex:
+        list(ex.map(one, names))
+    json.dump(out, open(os.environ.get('SEEDED_OUT', '/dev/null'), 'w'), indent=1, sort_keys=True)
     return out
 if __name__ == '__main__':
     main()
